@@ -320,6 +320,16 @@ def ite(c, a, b):
     if a is b: return a
     if c.op == 'not':
         return ite(c.args[0], b, a)
+    if c.op == 'fcmp' and c.attr in ('olt', 'ole') and (a.op == 'fneg' or b.op == 'fneg'):
+        # the conditional-negation idiom (x >= 0 ? x : -x and its three siblings) is kept as one
+        # named pure function of x, so that the global condition ordering does not interleave its
+        # sign test with unrelated conditions.  IEEE-exact: it is just a name for the select.
+        l, r_ = c.args
+        def is0(x): return x.op == 'const' and x.attr[0] in ('float', 'double') and (x.attr[1] << 1) & ((1 << (64 if x.attr[0] == 'double' else 32)) - 1) == 0
+        if is0(l) and a is r_ and b is fneg(r_):
+            return mk('absi', 'pos_' + c.attr, (r_,), a.ty)        # 0 < x / 0 <= x  ? x : -x
+        if is0(r_) and b is l and a is fneg(l):
+            return mk('absi', 'neg_' + c.attr, (l,), a.ty)         # x < 0 / x <= 0  ? -x : x
     key = (c.id, a.id, b.id)
     r = _ite_memo.get(key)
     if r is None:
@@ -517,6 +527,7 @@ def show(n, depth=6, names=None):
         if x.op in ('fmul', 'mul'): return '(%s * %s)' % tuple(a)
         if x.op in ('fdiv', 'sdiv'): return '(%s / %s)' % tuple(a)
         if x.op == 'fneg': return '-%s' % a[0]
+        if x.op == 'absi': return '|%s|' % a[0]
         if x.op == 'not': return '!%s' % a[0]
         if x.op in ('fcmp', 'icmp'):
             sym = {'olt': '<', 'ole': '<=', 'oeq': '==', 'one': '<>', 'slt': '<s', 'ult': '<u', 'eq': '==', 'ord': 'ord'}[x.attr]
